@@ -21,6 +21,7 @@ import GeoProofs.Lemmas.C12QSimple
 import GeoProofs.Lemmas.C12QFold
 import GeoProofs.Lemmas.C12QValid
 import GeoProofs.Lemmas.WINDJordan
+import GeoProofs.Lemmas.TRAN2Closest
 import Mathlib.Tactic.NormNum
 
 namespace Geo.Proofs.C12
@@ -1406,4 +1407,45 @@ theorem collection_interior_top_dim (len : Pt → Pt → Rat) (locOf : Poly → 
         rw [hpd] at this
         rw [hdg]; exact this
 
+/-! ### tie to the source -/
+
+/-- [E2] (translator tie) `closest_point.rs` and `Closest::best_of_two` (types.rs) of the model are the terms
+`translator/rs2lean.py` regenerates on every run from the Rust bodies (`GeoModel/Gen/ClosestGen.lean`): the
+three-way early return of `best_of_two` and its `<=` on distances; `Point::closest_point`; `Line::closest_point` (zero-length
+guard, projection parameter `t = to_p·d / d·d`, the `t < 0` / `t > 1` case split, `start + (t·x, t·y)`, the `intersects`
+test that picks the variant); the loop of `closest_of` with its short circuit on `Intersection`; the LineString, Polygon
+(interiors chained with the exterior), Triangle and Rect (`to_lines()` read off geo-types) impls and the four
+`closest_of(self.iter(), p)` impls, member functions instantiated with the model's. A changed comparison, operand, guard,
+branch order or ring order changes the regenerated definition and this theorem stops checking.
+The two square roots of the code are parameters: `dist` (`Euclidean.distance`, assumed to order pairs like the squared
+distance) and `len` (`Euclidean.length` of a line, assumed zero exactly on zero-length lines). Full statement (`dist`, `len` the
+Euclidean distance / length themselves): no model over the rationals; the hypotheses are instantiated below. -/
+theorem closestPoint_eq_source_partial (dist : Pt → Pt → Rat) (len : Pt × Pt → Rat)
+    (hd : Geo.Proofs.TRAN2Closest.DistOk dist) (hl : Geo.Proofs.TRAN2Closest.LenOk len) :
+    (∀ s o p, Gen.closestBestOfTwo dist s o p = bestOfTwo s o p) ∧
+    (∀ q p, Gen.pointClosestPoint q p = pointClosest q p) ∧
+    (∀ a b p, Gen.lineClosestPoint len a b p = lineClosest a b p) ∧
+    (∀ (f : Geom → Pt → Closest) l p, Gen.closestOf dist f l p = closestOf (fun x => f x p) p l) ∧
+    (∀ cs p, Gen.lineStringClosestPoint dist (Geo.Proofs.TRAN2Closest.lineFn len) cs p = lsClosest cs p) ∧
+    (∀ poly p, Gen.polygonClosestPoint dist (fun q p => coordPos (.polygon q) p != .outside) (fun r p => lsClosest r p) poly p
+      = polyClosest poly p) ∧
+    (∀ a b c p, Gen.triangleClosestPoint dist (Geo.Proofs.TRAN2Closest.lineFn len) a b c p = triClosest a b c p) ∧
+    (∀ mn mx p, Gen.rectClosestPoint dist (Geo.Proofs.TRAN2Closest.lineFn len) mn mx p = rectClosest mn mx p) ∧
+    (∀ qs p, Gen.multiPointClosestPoint dist pointClosest qs p = closest (.multiPoint qs) p) ∧
+    (∀ ls p, Gen.multiLineStringClosestPoint dist lsClosest ls p = closest (.multiLineString ls) p) ∧
+    (∀ ps p, Gen.multiPolygonClosestPoint dist polyClosest ps p = closest (.multiPolygon ps) p) ∧
+    (∀ gs p, Gen.geometryCollectionClosestPoint dist closest gs p = closest (.collection gs) p) :=
+  ⟨Geo.Proofs.TRAN2Closest.bestOfTwo_eq dist hd, Geo.Proofs.TRAN2Closest.pointClosest_eq,
+   Geo.Proofs.TRAN2Closest.lineClosest_eq len hl, fun f l p => Geo.Proofs.TRAN2Closest.closestOf_eq dist hd f l p,
+   Geo.Proofs.TRAN2Closest.lsClosest_eq dist len hd hl, Geo.Proofs.TRAN2Closest.polyClosest_eq dist hd,
+   Geo.Proofs.TRAN2Closest.triClosest_eq dist len hd hl, Geo.Proofs.TRAN2Closest.rectClosest_eq dist len hd hl,
+   fun qs p => (Geo.Proofs.TRAN2Closest.multi_eq dist hd p).1 qs, fun ls p => (Geo.Proofs.TRAN2Closest.multi_eq dist hd p).2.1 ls,
+   fun ps p => (Geo.Proofs.TRAN2Closest.multi_eq dist hd p).2.2.1 ps, fun gs p => (Geo.Proofs.TRAN2Closest.multi_eq dist hd p).2.2.2 gs⟩
+
+/-- the hypotheses hold for the squared distance / squared length (what the model compares) -/
+example : Gen.lineStringClosestPoint (fun a p => dist2 a p) (Geo.Proofs.TRAN2Closest.lineFn (fun s => dist2 s.1 s.2))
+    [⟨0, 0⟩, ⟨4, 0⟩, ⟨4, 3⟩] ⟨1, 2⟩ = lsClosest [⟨0, 0⟩, ⟨4, 0⟩, ⟨4, 3⟩] ⟨1, 2⟩ :=
+  (closestPoint_eq_source_partial _ _ Geo.Proofs.TRAN2Closest.distOk_dist2 Geo.Proofs.TRAN2Closest.lenOk_dist2).2.2.2.2.1 _ _
+
 end Geo.Proofs.C12
+
